@@ -119,6 +119,8 @@ def prepare_envs(envs):
         e = dict(env)
         if e.pop("__extra_set__", False):
             e["extra"] = set(e["extra"])
+        for key in e.pop("__sets__", []):
+            e[key] = set(e[key])
         out.append(e)
     return out
 
